@@ -239,7 +239,20 @@ def verus_files(S: Sources):
     ])
     # ---- integer core of Display::fmt as a region
     f_fmt = fd.find_fn("fmt", impl=r"impl fmt::Display for FineDuration")
-    txt, line = rsx.region(f_fmt, r"let picos = self \. picos ;", r"util :: fmt :: format_f64 \( val , sig_figs \) \} \} ;")
+    # from `let picos = self.picos;` to the end of the statement `let mut str: String = match .. ;` (found by bracket matching)
+    txt, line = rsx.region(f_fmt, r"let picos = self \. picos ;", r"let mut str : String = match", include_end=True)
+    body_all = f_fmt.body_text()
+    at = body_all.index(txt) + len(txt)
+    depth, i = 0, at
+    while i < len(body_all):
+        c = body_all[i]
+        if c in "({[": depth += 1
+        elif c in ")}]": depth -= 1
+        elif c == ";" and depth == 0: break
+        i += 1
+    else:
+        raise rsx.LostAnchor(f"{FD}: fmt region: end of the `let mut str` statement not found")
+    txt = txt + body_all[at:i + 1]
     import re
     subs = [
         (r"self\s*\.\s*picos", "this.picos", 1),
